@@ -13,9 +13,12 @@
    `duration` is within one frame of (support duration) / step. one_hot_encoding ([oval]): -1 on
    frames outside the support's ranges (given that the label's segments lie within support
    segments), 1 / 0 by membership in a label range inside, saturating; refusal when an explicit list
-   misses a label. Tied only: decoding as a whole (per-run bounds are proved), `labels` given in a
-   different order for discretize (by the exact comparison). Statements only. *)
-From PV Require Import Model.Discretize Proofs.SupportP Proofs.WindowP Proofs.AnnotationInvP Proofs.RangesP Proofs.DiscretizeP.
+   misses a label. Decoding as a whole: the runs of active frames of a column whose active frames are
+   those covered by separated non-empty ranges are exactly those ranges, in order; for a column built
+   by discretize they are the merged centre-mode ranges of the label's support clipped to the frame
+   count (each then decodes with the per-run bounds above). Tied only: `labels` given in a different
+   order for discretize (by the exact comparison). Statements only. *)
+From PV Require Import Model.Discretize Proofs.SupportP Proofs.WindowP Proofs.AnnotationInvP Proofs.RangesP Proofs.DiscretizeP Proofs.DecodeP.
 
 Theorem C17_centre_one_step_inside_is_active : forall w, 0 < w_step w -> forall r f,
   2 * (st r + w_step w) <= centre2 w f <= 2 * (en r - w_step w) ->
@@ -97,6 +100,17 @@ Theorem C17_label_ranges_within_support_ranges : forall eps, 0 <= eps -> forall 
   forall k, cov (crop_ranges_tl eps w segs ACenter) k -> cov (crop_ranges_tl eps w sup_l ACenter) k.
 Proof. exact label_ranges_within_support. Qed.
 
+(* ---- one_hot_decoding as a whole ---- *)
+Theorem C17_runs_of_a_column_are_its_separated_ranges : forall (c : Z -> Z) n rs f, f <= n -> sep rs -> ok_ranges n f rs ->
+  (forall k, f <= k < n -> (c k = 1 <-> cov rs k) /\ (c k = 0 \/ c k = 1)) ->
+  runs (map c (zrange f n)) f None = rs.
+Proof. exact runs_of_separated_ranges. Qed.
+Theorem C17_decoded_runs_of_a_discretize_column : forall eps, 0 <= eps -> forall c1 w n l,
+  AInv eps c1 -> 0 < w_step w -> 0 <= n ->
+  runs (map (dval eps c1 w n l) (zrange 0 n)) 0 None =
+  clipn n (crop_ranges_tl eps w (lab_tl eps (a_tracks c1) l) ACenter).
+Proof. exact decode_column. Qed.
+
 Example C17_nonvacuous :
   let a := ann_of 0 None None [((0, 8), NStr "_", NStr "a"); ((12, 20), NStr "_", NStr "b")] in
   option_map d_cols (discretize 0 a None 4 4 None None) = Some [[1; 1; 1; 0]; [0; 0; 1; 1]] /\
@@ -119,3 +133,5 @@ Print Assumptions C17_one_hot_shape.
 Print Assumptions C17_one_hot_refuses_missing_label.
 Print Assumptions C17_one_hot_entry.
 Print Assumptions C17_label_ranges_within_support_ranges.
+Print Assumptions C17_runs_of_a_column_are_its_separated_ranges.
+Print Assumptions C17_decoded_runs_of_a_discretize_column.
